@@ -5,6 +5,7 @@ mod common;
 mod eval;
 mod front;
 mod gen;
+mod oracles;
 mod proto;
 
 fn main() {
@@ -26,6 +27,17 @@ fn main() {
         "k5" => front::k5(dir, thorough, seed),
         "k6" => front::k6(dir, thorough, seed),
         "k7" => eval::k7(dir, thorough, seed),
+        "o02" => oracles::o02(dir, thorough, seed),
+        "o04" => oracles::o04(dir, thorough, seed),
+        "o08" => oracles::o08(dir, thorough, seed),
+        "o10" => oracles::o10(dir, thorough, seed),
+        "o11" => oracles::o11(dir, thorough, seed),
+        "o12" => oracles::o12(dir, thorough, seed),
+        "o13" => oracles::o13(dir, thorough, seed),
+        "o14" => oracles::o14(dir, thorough, seed),
+        "o15" => oracles::o15(dir, thorough, seed),
+        "o18" => oracles::o18(dir, thorough, seed),
+        "o20" => oracles::o20(dir, thorough, seed),
         other => {
             eprintln!("unknown correspondence {other}");
             std::process::exit(2);
